@@ -1777,8 +1777,105 @@ def gen_alloc(repo):
                      ["  (snapshots_in_ram, snapshots_on_disk, snapshots).",
                       "Definition alloc_tail_gen (weights : list Z) (snapshots snapshots_in_ram : Z) : list storage :=",
                       "  let allocation := %s in" % init, "  %s." % loop,
+                      "Definition handle_gen (snapshots : Z) (cp_action : action) (snapshot_i : Z) (weights : list Z) : res (Z * list Z) :=",
+                      "  let read_weight := 1 in let write_weight := 1 in let delete_weight := 0 in",
+                      "  match cp_action with", _alloc_handlers(fs[0]), "  end.",
+                      "Lemma handle_gen_is_shape : handle_gen = handle_shape.", "Proof. reflexivity. Qed.",
                       "Lemma alloc_pre_gen_is_shape : alloc_pre_gen = alloc_pre_shape.", "Proof. reflexivity. Qed.",
                       "Lemma alloc_tail_gen_is_shape : alloc_tail_gen = alloc_tail_shape.", "Proof. reflexivity. Qed.", ""]) + "\n"
+
+
+
+
+# ---- the dry-run handlers of allocate_snapshots (functools.singledispatch over the action type, nonlocal snapshot_i, the list weights) ->
+# one step function on (snapshot_i, weights) per action, the shape of Proofs/AllocGenSpec.v handle_shape
+ACT_FIELDS = {"Forward": ["n0", "n1", "write_ics", "write_adj_deps", "storage"], "Reverse": ["n1", "n0", "clear_adj_deps"],
+              "Copy": ["n", "from_storage", "to_storage"], "Move": ["n", "from_storage", "to_storage"], "EndForward": [], "EndReverse": []}
+ACT_BOOL = {"write_ics", "write_adj_deps", "clear_adj_deps"}
+ACT_STO = {"storage", "from_storage", "to_storage"}
+
+
+class HandlerTr:
+    WEIGHTS = ("read_weight", "write_weight", "delete_weight")
+
+    def __init__(self, cls):
+        self.cls = cls
+
+    def iex(self, e):
+        if isinstance(e, ast.Constant) and type(e.value) is int:
+            return str(e.value)
+        if isinstance(e, ast.Name) and e.id in ("snapshot_i", "snapshots") + self.WEIGHTS:
+            return e.id
+        if isinstance(e, ast.UnaryOp) and isinstance(e.op, ast.USub) and isinstance(e.operand, ast.Constant) and type(e.operand.value) is int:
+            return "(-%d)" % e.operand.value
+        raise Untranslatable("handler expression " + ast.dump(e)[:80])
+
+    def field(self, e, kinds):
+        if isinstance(e, ast.Attribute) and isinstance(e.value, ast.Name) and e.value.id == "cp_action" and e.attr in ACT_FIELDS[self.cls] and e.attr in kinds:
+            return e.attr
+        raise Untranslatable("handler: attribute " + ast.dump(e)[:80])
+
+    def cond(self, e):
+        if isinstance(e, ast.BoolOp) and isinstance(e.op, ast.Or):
+            return " || ".join("(%s)" % self.cond(v) for v in e.values)
+        if isinstance(e, ast.Compare) and len(e.ops) == 1 and type(e.ops[0]) in CMP and not isinstance(e.left, ast.Attribute):
+            return "%s %s %s" % (self.iex(e.left), CMP[type(e.ops[0])], self.iex(e.comparators[0]))
+        if isinstance(e, ast.Compare) and len(e.ops) == 1 and isinstance(e.ops[0], ast.Eq) and isinstance(e.comparators[0], ast.Attribute) \
+                and isinstance(e.comparators[0].value, ast.Name) and e.comparators[0].value.id == "StorageType" and e.comparators[0].attr in ("RAM", "DISK", "WORK", "NONE"):
+            return "st_eqb %s %s" % (self.field(e.left, ACT_STO), e.comparators[0].attr)
+        if isinstance(e, ast.Attribute):
+            return self.field(e, ACT_BOOL)
+        raise Untranslatable("handler condition " + ast.dump(e)[:80])
+
+    def block(self, stmts):
+        if not stmts:
+            return "Ok (snapshot_i, weights)"
+        s, rest = stmts[0], stmts[1:]
+        if isinstance(s, ast.Nonlocal) and s.names == ["snapshot_i"]:
+            return self.block(rest)
+        if isinstance(s, ast.Pass):
+            return self.block(rest)
+        if isinstance(s, ast.If) and not s.orelse and len(s.body) == 1 and isinstance(s.body[0], ast.Raise):
+            exc = s.body[0].exc.func.id if isinstance(s.body[0].exc, ast.Call) and isinstance(s.body[0].exc.func, ast.Name) else None
+            if exc not in EXN:
+                raise Untranslatable("handler: exception %s" % exc)
+            return "if %s then Err %s else\n    %s" % (self.cond(s.test), exc, self.block(rest))
+        if isinstance(s, ast.If) and not s.orelse:
+            return "if %s then (%s) else\n    (%s)" % (self.cond(s.test), self.block(list(s.body) + rest), self.block(rest))
+        if isinstance(s, ast.AugAssign) and isinstance(s.op, (ast.Add, ast.Sub)) and isinstance(s.target, ast.Name) and s.target.id == "snapshot_i":
+            return "let snapshot_i := snapshot_i %s %s in\n    %s" % ("+" if isinstance(s.op, ast.Add) else "-", self.iex(s.value), self.block(rest))
+        if isinstance(s, ast.AugAssign) and isinstance(s.op, ast.Add) and ast.unparse(s.target) == "weights[snapshot_i]" and isinstance(s.value, ast.Name) and s.value.id in self.WEIGHTS:
+            return "let weights := addat weights snapshot_i %s in\n    %s" % (s.value.id, self.block(rest))
+        raise Untranslatable("handler statement " + ast.dump(s)[:100])
+
+
+def _alloc_handlers(f):
+    """the nested handlers of allocate_snapshots -> Gallina text of handle_gen"""
+    body = _strip_doc(f.body)
+    defs = [n for n in body if isinstance(n, ast.FunctionDef)]
+    if not defs or ast.unparse(defs[0].decorator_list[0] if defs[0].decorator_list else ast.Pass()) != "functools.singledispatch" or defs[0].name != "action" \
+            or ast.unparse(defs[0].args) != "cp_action" or len(defs[0].body) != 1 or not isinstance(defs[0].body[0], ast.Raise) \
+            or not (isinstance(defs[0].body[0].exc, ast.Call) and ast.unparse(defs[0].body[0].exc.func) == "TypeError"):
+        raise Untranslatable("allocate_snapshots: @functools.singledispatch def action(cp_action): raise TypeError(..)")
+    arms = {}
+    for d in defs[1:]:
+        if ast.unparse(d.args) != "cp_action" or not d.decorator_list:
+            raise Untranslatable("allocate_snapshots: handler %s" % d.name)
+        for dec in d.decorator_list:
+            if not (isinstance(dec, ast.Call) and ast.unparse(dec.func) == "action.register" and len(dec.args) == 1 and isinstance(dec.args[0], ast.Name)
+                    and dec.args[0].id in ACT_FIELDS and not dec.keywords):
+                raise Untranslatable("allocate_snapshots: decorator of %s" % d.name)
+            if dec.args[0].id in arms:
+                raise Untranslatable("allocate_snapshots: two handlers for %s" % dec.args[0].id)
+            arms[dec.args[0].id] = HandlerTr(dec.args[0].id).block(_strip_doc(d.body))
+    # the names of the handlers are not used again (the registry is all that matters); no other statement rebinds `action`
+    if sum(1 for n in ast.walk(f) if isinstance(n, ast.FunctionDef) and n.name == "action") != 1:
+        raise Untranslatable("allocate_snapshots: action is redefined")
+    out = []
+    for c in ["Forward", "Reverse", "Copy", "Move", "EndForward", "EndReverse"]:
+        pat = " ".join([c] + ACT_FIELDS[c])
+        out.append("  | %s =>\n    %s" % (pat, arms.get(c, "Err TypeError")))
+    return "\n".join(out)
 
 
 GENERATORS["AllocGen"] = gen_alloc
